@@ -70,11 +70,29 @@ pub struct Plan {
 	pub decline_records: Vec<u16>,
 	/// indices of the methods whose `visit_code()` answers `None`
 	pub no_code: Vec<u16>,
+	/// (level, member index, off mask): the visitor handed out for THIS member (field / method / the code visitor of
+	/// method #index / record component) answers `interests()` from this mask instead of `off[level]` — visitors of one
+	/// class need not agree on what they are interested in
+	pub member_masks: Vec<(u8, u16, u32)>,
 }
 
 impl Plan {
 	pub fn on(&self, level: usize, flag: usize) -> bool {
 		self.off[level] & (1 << flag) == 0
+	}
+
+	/// the off mask the visitor of member #`index` at `level` answers with
+	pub fn off_of(&self, level: usize, index: u16) -> u32 {
+		self.member_masks.iter().find(|(l, i, _)| *l as usize == level && *i == index).map_or(self.off[level], |(_, _, m)| *m)
+	}
+
+	/// is flag `flag` of interest to the visitor of member #`index` at `level`?
+	pub fn on_m(&self, level: usize, index: u16, flag: usize) -> bool {
+		self.off_of(level, index) & (1 << flag) == 0
+	}
+
+	pub fn all_mask(level: usize) -> u32 {
+		(1u32 << FLAGS[level].len()) - 1
 	}
 
 	pub fn all_off() -> Plan {
@@ -88,10 +106,11 @@ impl Plan {
 	pub fn to_text(&self) -> String {
 		let list = |v: &Vec<u16>| v.iter().map(|x| x.to_string()).collect::<Vec<_>>().join(",");
 		format!(
-			"dc:{}|off:{}|df:{}|dm:{}|dr:{}|nc:{}",
+			"dc:{}|off:{}|df:{}|dm:{}|dr:{}|nc:{}|mm:{}",
 			self.decline_class as u8,
 			self.off.iter().map(|x| x.to_string()).collect::<Vec<_>>().join(":"),
-			list(&self.decline_fields), list(&self.decline_methods), list(&self.decline_records), list(&self.no_code)
+			list(&self.decline_fields), list(&self.decline_methods), list(&self.decline_records), list(&self.no_code),
+			self.member_masks.iter().map(|(l, i, m)| format!("{l}.{i}.{m}")).collect::<Vec<_>>().join(",")
 		)
 	}
 
@@ -113,6 +132,15 @@ impl Plan {
 				"dm" => p.decline_methods = list(v)?,
 				"dr" => p.decline_records = list(v)?,
 				"nc" => p.no_code = list(v)?,
+				"mm" => {
+					for e in v.split(',').filter(|x| !x.is_empty()) {
+						let n: Vec<u32> = e.split('.').map(|x| x.parse().ok()).collect::<Option<_>>()?;
+						if n.len() != 3 || n[0] as usize >= FLAGS.len() {
+							return None;
+						}
+						p.member_masks.push((n[0] as u8, n[1] as u16, n[2]));
+					}
+				},
 				_ => return None,
 			}
 		}
@@ -139,6 +167,12 @@ impl Plan {
 		}
 		for i in &self.no_code {
 			out.push(format!("visit_code()=None for method #{i}"));
+		}
+		for (l, i, m) in &self.member_masks {
+			let l = *l as usize;
+			let what = if l == CODE { format!("the code visitor of method #{i}") } else { format!("the visitor of {} #{i}", LEVEL_NAMES[l]) };
+			let off: Vec<&str> = FLAGS[l].iter().enumerate().filter(|(f, _)| m & (1 << f) != 0).map(|(_, n)| *n).collect();
+			out.push(format!("{what} answers for itself: {}", if off.is_empty() { "every interest on".to_owned() } else if off.len() == FLAGS[l].len() { "every interest off".to_owned() } else { format!("off: {}", off.join(",")) }));
 		}
 		if out.is_empty() {
 			"every interest on, everything accepted".to_owned()
@@ -172,16 +206,16 @@ impl Plan {
 		}
 	}
 
-	fn field_interests(&self) -> [bool; 7] {
-		std::array::from_fn(|i| self.on(FIELD, i))
+	fn field_interests(&self, index: u16) -> [bool; 7] {
+		std::array::from_fn(|i| self.on_m(FIELD, index, i))
 	}
 
-	fn record_interests(&self) -> [bool; 6] {
-		std::array::from_fn(|i| self.on(RECORD, i))
+	fn record_interests(&self, index: u16) -> [bool; 6] {
+		std::array::from_fn(|i| self.on_m(RECORD, index, i))
 	}
 
-	fn method_interests(&self) -> MethodInterests {
-		let o = |i| self.on(METHOD, i);
+	fn method_interests(&self, index: u16) -> MethodInterests {
+		let o = |i| self.on_m(METHOD, index, i);
 		MethodInterests {
 			code: o(0),
 			exceptions: o(1),
@@ -363,7 +397,7 @@ impl<'a> ClassVisitor for MClass<'a> {
 		Ok(match inner.visit_record_component(name, descriptor)? {
 			ControlFlow::Continue((residual, visitor)) => {
 				st.decisions += 1; // its interests() answer
-				ControlFlow::Continue(((residual, st), MaskedRecordComponent::new(visitor, st.plan.record_interests())))
+				ControlFlow::Continue(((residual, st), MaskedRecordComponent::new(visitor, st.plan.record_interests(i))))
 			},
 			ControlFlow::Break(inner) => ControlFlow::Break(MClass { inner, st }),
 		})
@@ -388,7 +422,7 @@ impl<'a> ClassVisitor for MClass<'a> {
 		Ok(match inner.visit_field(access, name, descriptor)? {
 			ControlFlow::Continue((residual, visitor)) => {
 				st.decisions += 1;
-				ControlFlow::Continue(((residual, st), MaskedField::new(visitor, st.plan.field_interests())))
+				ControlFlow::Continue(((residual, st), MaskedField::new(visitor, st.plan.field_interests(i))))
 			},
 			ControlFlow::Break(inner) => ControlFlow::Break(MClass { inner, st }),
 		})
@@ -408,7 +442,7 @@ impl<'a> ClassVisitor for MClass<'a> {
 		}
 		Ok(match inner.visit_method(access, name, descriptor)? {
 			ControlFlow::Continue((residual, visitor)) => {
-				let mv = MMethod { inner: visitor, mst: MSt { plan: st.plan, no_code: st.plan.no_code.contains(&i), decisions: 1 } };
+				let mv = MMethod { inner: visitor, mst: MSt { plan: st.plan, index: i, no_code: st.plan.no_code.contains(&i), decisions: 1 } };
 				ControlFlow::Continue(((residual, st), mv))
 			},
 			ControlFlow::Break(inner) => ControlFlow::Break(MClass { inner, st }),
@@ -426,6 +460,8 @@ impl<'a> ClassVisitor for MClass<'a> {
 #[derive(Clone, Copy)]
 pub struct MSt<'a> {
 	plan: &'a Plan,
+	/// index of the method in the class file
+	index: u16,
 	no_code: bool,
 	decisions: u64,
 }
@@ -446,7 +482,7 @@ impl<'a> MethodVisitor for MMethod<'a> {
 	type UnknownAttribute = <Method as MethodVisitor>::UnknownAttribute;
 
 	fn interests(&self) -> MethodInterests {
-		self.mst.plan.method_interests()
+		self.mst.plan.method_interests(self.mst.index)
 	}
 
 	fn visit_deprecated_and_synthetic_attribute(&mut self, deprecated: bool, synthetic: bool) -> Result<()> {
@@ -497,8 +533,8 @@ impl<'a> MethodVisitor for MMethod<'a> {
 			return Ok(None);
 		}
 		self.mst.decisions += 1; // the code visitor's interests() answer
-		let plan = self.mst.plan;
-		Ok(self.inner.visit_code()?.map(|inner| MCode { inner, off: plan.off[CODE] }))
+		let off = self.mst.plan.off_of(CODE, self.mst.index);
+		Ok(self.inner.visit_code()?.map(|inner| MCode { inner, off }))
 	}
 	fn finish_code(&mut self, code_visitor: Self::CodeVisitor) -> Result<()> {
 		self.inner.finish_code(code_visitor.inner)
@@ -605,7 +641,7 @@ impl<'a> SimpleClassVisitor for Simple<'a> {
 			return Ok(None);
 		}
 		self.st.decisions += 1;
-		Ok(Some(MaskedField::new(Field::new(access, name, descriptor), self.st.plan.field_interests())))
+		Ok(Some(MaskedField::new(Field::new(access, name, descriptor), self.st.plan.field_interests(i))))
 	}
 	fn finish_field(&mut self, field_visitor: Self::FieldVisitor) -> Result<()> {
 		self.shell.fields.push(field_visitor.into_inner());
@@ -619,7 +655,7 @@ impl<'a> SimpleClassVisitor for Simple<'a> {
 		if self.st.plan.decline_methods.contains(&i) {
 			return Ok(None);
 		}
-		Ok(Some(MMethod { inner: Method::new(access, name, descriptor), mst: MSt { plan: self.st.plan, no_code: self.st.plan.no_code.contains(&i), decisions: 1 } }))
+		Ok(Some(MMethod { inner: Method::new(access, name, descriptor), mst: MSt { plan: self.st.plan, index: i, no_code: self.st.plan.no_code.contains(&i), decisions: 1 } }))
 	}
 	fn finish_method(&mut self, method_visitor: Self::MethodVisitor) -> Result<()> {
 		self.st.decisions += method_visitor.mst.decisions;
